@@ -707,6 +707,7 @@ func (c *BytecodeCompiler) isBeingDefined(receiverType types.Type, name value.Sy
 
 func (c *BytecodeCompiler) registerLateCall(call *bytecodeCall) {
 	c.lateCalls = append(c.lateCalls, call)
+	concurrent.VerifPoint("compiler.registerLateCall")
 	c.globalData.callsToOptimise.Push(call)
 }
 
